@@ -254,6 +254,10 @@ theorem chunk_independent (cs : List Bytes) :
   refine ⟨?_, by rw [k1, rs.1]⟩
   cases he : r.ends <;> cases he' : (validateRfc .init cs.flatten).1.ends <;> simp_all
 
+example : (feed validatePy .init [[0xE2], [], [0x82, 0xAC, 0xFF], [0x41]]).2 = (validatePy .init [0xE2, 0x82, 0xAC, 0xFF, 0x41]).2 ∧
+    (feed validatePy .init [[0xE2], [], [0x82, 0xAC, 0xFF], [0x41]]).1 =
+      [⟨true, false, 1, 1⟩, ⟨true, false, 0, 1⟩, ⟨false, false, 2, 3⟩, ⟨false, false, 0, 3⟩] := by decide
+
 /-- in every call the reported indices satisfy `totalIndex = (total before the call) + currentIndex` -/
 theorem chunk_relative_index (st : St) (h : st.ok) (b : Bytes) :
     (validatePy st b).1.total = st.index + (validatePy st b).1.cur ∧
@@ -276,6 +280,8 @@ theorem total_counts_bytes (cs : List Bytes) (h : verdict (feed validatePy .init
   rcases validate_cases rfcStep 0 1 .init cs.flatten (by decide) with ⟨_, h2⟩ | ⟨k, _, _, _, h3⟩
   · rw [validateRfc, h2]; simp [St.init]
   · rw [validateRfc, h3] at h; simp at h
+
+example : verdict (feed validatePy .init [[0xE2], [0x82, 0xAC], [0xF0, 0x90]]).1 = true := by decide
 
 /-- per-call form: a call made after the (not yet rejected) prefix `p` answers exactly what one call on `p ++ c`
 answers, with the chunk-relative index shifted by `|p|` -/
@@ -312,6 +318,8 @@ theorem call_eq_whole (p c : Bytes) (hp : (validatePy .init p).1.valid = true) :
         subst this
         simp [St.init]
   · rw [validateRfc, h3] at hp; simp at hp
+
+example : (validatePy .init [0xF0, 0x90]).1.valid = true := by decide
 
 /-- after a rejection the pure-Python validator keeps rejecting: a later non-empty chunk is answered
 `(False, False, 0, same total)`, an empty one `(True, False, 0, same total)`; the state does not change -/
